@@ -1891,8 +1891,16 @@ class Model:
             msg = f"Surrogate '{name}' not found in model"
             raise KeyError(msg)
 
+        old_outputs = list(self._surrogates[name].outputs)
         if surrogate is None:
             surrogate = self._surrogates[name]
+
+        # Reject the update before the surrogate or any id is changed
+        self._check_new_ids(
+            names=surrogate.outputs if outputs is None else outputs,
+            ctx="surrogate",
+            replaced=old_outputs,
+        )
 
         # Update existing / passed surrogate (other args always take precendece)
         if args is not None:
@@ -1903,7 +1911,7 @@ class Model:
             surrogate.stoichiometries = stoichiometries
 
         # Update ids
-        for i in self._surrogates[name].outputs:
+        for i in old_outputs:
             self._remove_id(name=i)
         for i in surrogate.outputs:
             self._insert_id(name=i, ctx="surrogate")
